@@ -258,20 +258,10 @@ func C15(c *Ctx) {
 		}
 	})
 	c.R.Check(delApply && delReport && len(delM.Blocks) == 1, "C15-R1", "DeleteMachine: removed and reported", c.P.Pos(delM.Pos()), "delete from the crew and Changed.Deleted = true, unconditionally", "a deletion is not both applied and reported")
-	// DoOp: updates before deletes
-	var setCall, delCall ssa.Instruction
-	ssau.Instrs(doOp, func(in ssa.Instruction) {
-		if ci, ok := in.(ssa.CallInstruction); ok {
-			switch ci.Common().StaticCallee() {
-			case setM:
-				setCall = in
-			case delM:
-				delCall = in
-			}
-		}
-	})
-	okOrder := setCall != nil && delCall != nil && flow.Reachable(setCall.Block(), delCall.Block(), nil) && !flow.Reachable(delCall.Block(), setCall.Block(), nil)
-	c.R.Check(okOrder, "C15-R1", "DoOp: updates are applied before deletions", c.P.Pos(doOp.Pos()), "no path from a deletion to an update within one operation", "within one crew operation a deletion can precede an update of the same machine: the deletion flag then hides the update from the report although the machine is live")
+	// (The order of deletions and updates inside one crew operation is not checked: since SetMachine withdraws a
+	// pending deletion — rule "a pending deletion of the machine is withdrawn" above — either order is reported
+	// faithfully.  An earlier rule demanded updates before deletions; it had become a false alarm.)
+	_ = doOp
 	c15Writers(c, change)
 	c15Copies(c)
 	c15Walks(c, runM)
